@@ -108,10 +108,14 @@ func unitsFor(prog *Program, prop string) []checkUnit {
 				}
 			}
 		}
-		for _, p := range ct.Directives["nopanic"] {
-			for _, q := range strings.Fields(p) {
-				if q == prop {
-					serves = true
+		// "serves <props>": the unit also runs for these properties, which are charged only the
+		// obligations tagged with them explicitly (guarantee steps, tagged clauses)
+		for _, d := range []string{"nopanic", "serves", "overflow"} {
+			for _, p := range ct.Directives[d] {
+				for _, q := range strings.Fields(p) {
+					if q == prop {
+						serves = true
+					}
 				}
 			}
 		}
